@@ -80,4 +80,14 @@ def selectStars (rows : List StarRow) (brightest : Option Nat) : Option (List Na
   | none => some idx
   | some n => some (topN (fun i => match rows[i]? with | some r => ((0 : Int), r.flux) | none => (0, 0)) n idx)
 
+/-! ### the `min_separation` neighbourhood of the star finders (`StarFinderBase._find_stars`) -/
+
+/-- integer offsets (dy, dx) of the circular footprint: `idx = arange(-n, n + 1)` with `n = int(sep)`,
+    `footprint = (xx**2 + yy**2 <= sep**2)`; scipy centres an odd footprint on the pixel -/
+def sepOffsets (sep : Rat) : List (Int × Int) :=
+  let n : Int := sep.floor
+  let r : List Int := (List.range (2 * n.toNat + 1)).map fun (k : Nat) => (k : Int) - n
+  (r.flatMap fun dy => r.map fun dx => (dy, dx)).filter fun o =>
+    decide (((o.1 * o.1 + o.2 * o.2 : Int) : Rat) ≤ sep * sep)
+
 end PhotVerif.Model.Peaks
